@@ -1,2 +1,18 @@
-(* codec_time.ml - timecode cases (filled in with the time model) *)
-let handle (_cmd : string) (_rest : string list) : unit = print_string "bad-command\n"
+(* codec_time.ml - timecode cases: timeparse <hex> | timeformat ns <n> | timeformat frac <n> <d> *)
+open Model
+open Conv
+
+let handle (cmd : string) (rest : string list) : unit =
+  match cmd, rest with
+  | "timeparse", _ ->
+      let s = match rest with h :: _ -> from_hex h | [] -> "" in
+      (match drv_time_parse (bytes_of_string s) with
+       | Some (Ns n) -> print_string ("ok ns " ^ string_of_n n ^ "\n")
+       | Some (Frac (a, b)) -> print_string ("ok frac " ^ string_of_n a ^ " " ^ string_of_n b ^ "\n")
+       | None -> print_string "err\n")
+  | "timeformat", ["ns"; n] ->
+      print_string ("ok " ^ to_hex (string_of_bytes (drv_time_format (Ns (n_of_string n)))) ^ "\n")
+  | "timeformat", ["frac"; a; b] ->
+      if int_of_string b < 1 then print_string "err\n"   (* FractionalTime's constructor *)
+      else print_string ("ok " ^ to_hex (string_of_bytes (drv_time_format (Frac (n_of_string a, n_of_string b)))) ^ "\n")
+  | _ -> print_string "bad-command\n"
